@@ -81,6 +81,13 @@ def r1(ctx, R):
     # get_keywords indexes the list by id and looks the argument up under the list's own spelling
     gk = ctx.m.fn("get_keywords")
     txt = unparse(gk.node)
+    # ... or in a helper it hands each id to (same module, one level)
+    for c in calls_in(gk.node):
+        k_, tg = ctx.r.resolve_call(gk, c)
+        if k_ in ("module", "nested"):
+            for t in tg:
+                if ctx.m.funcs[t].rel == gk.rel:
+                    txt += "\n" + unparse(ctx.m.funcs[t].node)
     if "KEYWORD_LIST[" in txt and ".get(" in txt:
         R.ok("C11.R1", gk.short, "names and arguments read back through the same table", loc(gk, gk.node))
     else:
@@ -225,10 +232,23 @@ class Slice:
         out = set()
         work = list(exprs)
         names_done = set()
+        # locals that may denote the object itself: `src = self if c else self.link_obj`
+        def may_be_self(v):
+            if isinstance(v, ast.Name):
+                return v.id == "self"
+            if isinstance(v, ast.IfExp):
+                return may_be_self(v.body) or may_be_self(v.orelse)
+            if isinstance(v, ast.BoolOp):
+                return any(may_be_self(x) for x in v.values)
+            return False
+        selfs = {"self"}
+        for st in ctx.m.walk_own(f.node):
+            if isinstance(st, ast.Assign) and len(st.targets) == 1 and isinstance(st.targets[0], ast.Name) and may_be_self(st.value):
+                selfs.add(st.targets[0].id)
         while work:
             e = work.pop()
             for n in ast.walk(e):
-                if isinstance(n, ast.Attribute) and isinstance(n.value, ast.Name) and n.value.id == "self":
+                if isinstance(n, ast.Attribute) and isinstance(n.value, ast.Name) and n.value.id in selfs:
                     par = ctx.m.parent.get(n)
                     if isinstance(par, ast.Call) and par.func is n:
                         q = ctx.m.method(f.cls, n.attr) if f.cls else None
@@ -239,7 +259,7 @@ class Slice:
                             out |= self.fields(g, rets, depth + 1, seen)
                     else:
                         out.add(n.attr)
-                elif isinstance(n, ast.Name) and isinstance(n.ctx, ast.Load) and n.id not in names_done and n.id != "self":
+                elif isinstance(n, ast.Name) and isinstance(n.ctx, ast.Load) and n.id not in names_done and n.id not in selfs:
                     names_done.add(n.id)
                     for st, v in defs_of(ctx, f, n.id):
                         if v is not None:
@@ -326,7 +346,7 @@ def r4(ctx, R):
 
 
 def r3(ctx, R):
-    R.rule("C11.R3", "documentation text reaches the client verbatim: never used as a format template", floor=3, confirmed=3)
+    R.rule("C11.R3", "documentation text reaches the client verbatim: never used as a format template", floor=1, confirmed=3)
     from .c09 import r4 as fmt
 
     class Proxy:
